@@ -29,14 +29,14 @@ type Outcome struct {
 	Died   bool   `json:"died,omitempty"`
 	Stderr string `json:"stderr,omitempty"`
 
-	RefAddErr string `json:"ref_add_err,omitempty"` // Add of the same blob with no failing drive
-	AddErr    string `json:"add_err,omitempty"`
-	AddDone   bool   `json:"add_done,omitempty"`
+	RefAddErr string   `json:"ref_add_err,omitempty"` // Add of the same blob with no failing drive
+	AddErr    string   `json:"add_err,omitempty"`
+	AddDone   bool     `json:"add_done,omitempty"`
 	AddState  []string `json:"add_state,omitempty"` // write mode: shard files that are not as expected after Add
-	Panic     string `json:"panic,omitempty"` // recovered panic on the calling goroutine, with phase
-	PanicSOP  bool   `json:"panic_sop,omitempty"`
+	Panic     string   `json:"panic,omitempty"`     // recovered panic on the calling goroutine, with phase
+	PanicSOP  bool     `json:"panic_sop,omitempty"`
 
-	Damaged   []bool `json:"damaged,omitempty"`   // file differs from / is missing w.r.t. the fresh image, before the read
+	Damaged   []bool `json:"damaged,omitempty"`    // file differs from / is missing w.r.t. the fresh image, before the read
 	TwinCount int    `json:"twin_count,omitempty"` // shards changed by the twin pattern
 
 	GetDone  bool   `json:"get_done,omitempty"`
@@ -45,6 +45,9 @@ type Outcome struct {
 	GotOther bool   `json:"got_other,omitempty"` // exactly the foreign / twin blob
 	GotLen   int    `json:"got_len,omitempty"`
 	GotSha   string `json:"got_sha,omitempty"`
+	// Second: what a second, later read returned after a successful repairing read ("" = the stored bytes again)
+	Second     string `json:"second,omitempty"`
+	SecondDone bool   `json:"second_done,omitempty"`
 
 	// repair mode
 	AfterRepair   []string `json:"after_repair,omitempty"` // per shard: same | missing | differs(<detail>)
@@ -351,6 +354,22 @@ func runCase(c Case) (out Outcome) {
 		out.GotOther = otherBlob != nil && bytes.Equal(got, otherBlob)
 		out.GotLen = len(got)
 		out.GotSha = sha(got)
+	}
+	if c.Repair && err == nil && out.GotEqual {
+		// a later reader (new store object) of the blob the first read may just have repaired
+		phase = "get2"
+		r2, err := newStore(c.D, c.P, drives, false, fs.NewFileIO())
+		if err != nil {
+			return herr("NewBlobStoreWithEC: %v", err)
+		}
+		got2, err2 := r2.GetOne(ctx, table, id)
+		out.SecondDone = true
+		switch {
+		case err2 != nil:
+			out.Second = "error " + err2.Error()
+		case !bytes.Equal(got2, blob):
+			out.Second = fmt.Sprintf("%d different bytes (stored: %d)", len(got2), len(blob))
+		}
 	}
 	if c.Mode != "repair" || err != nil || !out.GotEqual {
 		return out
